@@ -550,29 +550,50 @@ func (fc *fnCtx) atLoopHeader(st *State, fr *frame, li *loopInfo, pred *ssa.Basi
 			}
 		}
 	}
-	sc := fc.specCtxFor(st, fr)
-	sc.useNames = true
+	ofr := fr // frame that names the loop's obligations
+	if li.spec == nil && fr.parent != nil {
+		// a loop without clauses in a contract-less callee executed in place: if the contract under verification
+		// has exactly one loop clause that names no loop of its own body, the loop was moved into this helper
+		if ls, ok := fc.adoptedBy[li.header]; ok {
+			li.spec = ls
+		} else if len(fc.orphanLoops) == 1 && len(fc.adoptedBy) == 0 {
+			for _, ls := range fc.orphanLoops {
+				fc.adoptedBy[li.header] = ls
+				li.spec = ls
+				fc.e.warnings[fmt.Sprintf("%s: loop %d of the contract is attached to the loop of the helper %s (executed in place)", fc.key, ls.N, fr.key)] = true
+			}
+		}
+	}
+	if li.spec != nil && fr.parent != nil {
+		if ls, ok := fc.adoptedBy[li.header]; ok && ls == li.spec {
+			ofr = fc.top
+			lname = fmt.Sprintf("loop%d", ls.N)
+		}
+	}
 	if li.spec == nil {
 		fc.unsupported("loop %d of %s has no invariant/decreases clause", li.ordinal, fr.key)
 	}
+	// (an adopted clause is evaluated in the context of the function whose contract it belongs to)
+	sc := fc.specCtxFor(st, ofr)
+	sc.useNames = true
 	if li.spec.Unreachable != nil {
 		// the contract says no path reaches this loop under the precondition: prove it and stop here
-		fc.emit(st, fc.oblName(fr, lname+".unreachable"), "loop.init", "no path reaches this loop under the function's precondition", clauseLoc(li.spec.Unreachable), "false", li.spec.Unreachable.Tags)
+		fc.emit(st, fc.oblName(ofr, lname+".unreachable"), "loop.init", "no path reaches this loop under the function's precondition", clauseLoc(li.spec.Unreachable), "false", li.spec.Unreachable.Tags)
 		return false
 	}
 	if fromInside {
 		for _, inv := range li.spec.Invariants {
-			g := fc.evalBoolClause(sc, inv, fc.oblName(fr, fmt.Sprintf("%s.preserve.inv%d", lname, inv.Ord)))
+			g := fc.evalBoolClause(sc, inv, fc.oblName(ofr, fmt.Sprintf("%s.preserve.inv%d", lname, inv.Ord)))
 			if g != "" {
-				fc.emit(st, fc.oblName(fr, fmt.Sprintf("%s.preserve.inv%d", lname, inv.Ord)), "loop.preserve", inv.Text, clauseLoc(inv), g, inv.Tags)
+				fc.emit(st, fc.oblName(ofr, fmt.Sprintf("%s.preserve.inv%d", lname, inv.Ord)), "loop.preserve", inv.Text, clauseLoc(inv), g, inv.Tags)
 			}
 		}
 		if li.spec.Decreases != nil && strings.TrimSpace(li.spec.Decreases.Text) != "*" {
 			v0, ok := st.loopVar[li.header]
 			if ok {
-				g := fc.evalIntClause(sc, li.spec.Decreases, fc.oblName(fr, lname+".decreases"))
+				g := fc.evalIntClause(sc, li.spec.Decreases, fc.oblName(ofr, lname+".decreases"))
 				if g != "" {
-					fc.emit(st, fc.oblName(fr, lname+".decreases"), "loop.decreases", li.spec.Decreases.Text, clauseLoc(li.spec.Decreases),
+					fc.emit(st, fc.oblName(ofr, lname+".decreases"), "loop.decreases", li.spec.Decreases.Text, clauseLoc(li.spec.Decreases),
 						fmt.Sprintf("(and (>= %s 0) (< %s %s))", v0, g, v0), li.spec.Decreases.Tags)
 				}
 			}
@@ -581,9 +602,9 @@ func (fc *fnCtx) atLoopHeader(st *State, fr *frame, li *loopInfo, pred *ssa.Basi
 	}
 	// entry from outside
 	for _, inv := range li.spec.Invariants {
-		g := fc.evalBoolClause(sc, inv, fc.oblName(fr, fmt.Sprintf("%s.init.inv%d", lname, inv.Ord)))
+		g := fc.evalBoolClause(sc, inv, fc.oblName(ofr, fmt.Sprintf("%s.init.inv%d", lname, inv.Ord)))
 		if g != "" {
-			fc.emit(st, fc.oblName(fr, fmt.Sprintf("%s.init.inv%d", lname, inv.Ord)), "loop.init", inv.Text, clauseLoc(inv), g, inv.Tags)
+			fc.emit(st, fc.oblName(ofr, fmt.Sprintf("%s.init.inv%d", lname, inv.Ord)), "loop.init", inv.Text, clauseLoc(inv), g, inv.Tags)
 		}
 	}
 	// havoc loop-carried values
@@ -599,7 +620,7 @@ func (fc *fnCtx) atLoopHeader(st *State, fr *frame, li *loopInfo, pred *ssa.Basi
 		}
 	}
 	fc.havocLoopWrites(st, fr, li)
-	sc = fc.specCtxFor(st, fr)
+	sc = fc.specCtxFor(st, ofr)
 	sc.useNames = true
 	for _, inv := range li.spec.Invariants {
 		g := fc.evalBoolClause(sc, inv, "")
@@ -608,7 +629,7 @@ func (fc *fnCtx) atLoopHeader(st *State, fr *frame, li *loopInfo, pred *ssa.Basi
 		}
 	}
 	// vacuity guard: the invariants must be satisfiable together with the path so far
-	fc.emitQ(st, fc.oblName(fr, "smoke."+lname), "smoke", "loop invariants are satisfiable", "", "false", nil, true)
+	fc.emitQ(st, fc.oblName(ofr, "smoke."+lname), "smoke", "loop invariants are satisfiable", "", "false", nil, true)
 	if li.spec.Decreases != nil && strings.TrimSpace(li.spec.Decreases.Text) == "*" {
 		fc.e.warnings[fmt.Sprintf("termination of loop %d of %s is not claimed (decreases *)", li.ordinal, fr.key)] = true
 	} else if li.spec.Decreases != nil {
@@ -619,7 +640,7 @@ func (fc *fnCtx) atLoopHeader(st *State, fr *frame, li *loopInfo, pred *ssa.Basi
 			st.loopVar[li.header] = n
 		}
 	} else {
-		fc.emit(st, fc.oblName(fr, lname+".decreases"), "loop.decreases", "(missing decreases clause)", "", "false", nil)
+		fc.emit(st, fc.oblName(ofr, lname+".decreases"), "loop.decreases", "(missing decreases clause)", "", "false", nil)
 	}
 	return true
 }
